@@ -42,13 +42,13 @@ def describe(rep):
         'one record per accepted step and recorded type survives, keyed by the true time / restart count; niter = number of iteration '
         'callbacks; work_rhs = number of right-hand-side evaluations actually made; no silent key collisions between attempts. The hooks attached to '
         'the histories: default, LogWork, LogSDCIterations, LogSolution, LogStepSize, LogRestarts, LogGlobalErrorPostStep, LogLocalErrorPostStep, '
-        'LogEmbeddedErrorEstimate registered after its subclass ...PostIter. (c) registration (ENUMERATED, concrete): for all ordered pairs of the '
+        'LogGlobalErrorPostIter, LogLocalErrorPostIter, LogGlobalErrorPostRun, LogExtrapolationErrorEstimate, LogEmbeddedErrorEstimate registered after its subclass ...PostIter. (c) registration (ENUMERATED, concrete): for all ordered pairs of the '
         'shipped hook classes (found by introspection) and both routes (hook_class list, add_hook) each requested class is registered exactly once.'
     )
     rep.rule = 'case = path of filter_stats on a symbolic dictionary / one explored history of the real controller'
     rep.assume('dictionary keys are pairwise distinct (contract of a dict)', 'restart generations 0..2 and the entry types are enumerated, not symbolic',
                'histories: fixed exactly representable dt; restart requests injected symbolically')
-    rep.out_of_scope('per-iteration error hooks, extrapolation estimate hook', 'values of the timing hooks', 'file-writing hooks (LogToFile, pickle)', 'MPI gathering of statistics', 'more than 4 dictionary entries')
+    rep.out_of_scope('LogSolutionAfterIteration (shares the type u with LogSolution)', 'values of the timing hooks', 'file-writing hooks (LogToFile, pickle)', 'MPI gathering of statistics', 'more than 4 dictionary entries')
 
 
 def tasks(tier, seed):
@@ -378,6 +378,7 @@ def hist_case(rep, NP, MAXR, NSTEPS, FIRST, CRASH, prefix, shrink=False):
     from harness import c09
     from pySDC.implementations.hooks.log_errors import LogGlobalErrorPostStep, LogLocalErrorPostStep, LogGlobalErrorPostIter, LogLocalErrorPostIter, LogGlobalErrorPostRun
     from pySDC.implementations.hooks.log_embedded_error_estimate import LogEmbeddedErrorEstimate, LogEmbeddedErrorEstimatePostIter
+    from pySDC.implementations.hooks.log_extrapolated_error_estimate import LogExtrapolationErrorEstimate
     from pySDC.implementations.hooks.log_work import LogWork, LogSDCIterations
     from pySDC.implementations.hooks.log_solution import LogSolution
     from pySDC.implementations.hooks.log_step_size import LogStepSize
@@ -415,7 +416,7 @@ def hist_case(rep, NP, MAXR, NSTEPS, FIRST, CRASH, prefix, shrink=False):
         CALLS.clear()
         CALLS.update({'add': [], 'iters': {}, 'work': {}, 'post': [], 'attempt': 0})
         r = c09.hist_run(c, NP, MAXR, NSTEPS, FIRST, CRASH, extra_hooks=[SetEst, LogEmbeddedErrorEstimatePostIter, LogWork, LogSDCIterations, LogSolution, LogStepSize, LogGlobalErrorPostStep,
-                                                                           LogLocalErrorPostStep, LogEmbeddedErrorEstimate, LogGlobalErrorPostIter, LogLocalErrorPostIter, LogGlobalErrorPostRun, Count], shrink=opts)
+                                                                           LogLocalErrorPostStep, LogEmbeddedErrorEstimate, LogGlobalErrorPostIter, LogLocalErrorPostIter, LogGlobalErrorPostRun, LogExtrapolationErrorEstimate, Count], shrink=opts)
         bad = []
         if r['status'] == 'ok':
             bad = judge_stats(r, NP)
@@ -460,7 +461,7 @@ def judge_stats(r, NP):
     acc = [l for l in r['log'] if not l[5]]
     posts = [p for p in CALLS['post'] if not p[2]]  # accepted attempts: (attempt, time, restart, iters, evals, restarts_in_a_row)
     start_types = ['niter', 'residual_post_step', 'restart', 'dt']
-    end_types = ['u', 'k', 'work_rhs', 'e_global_post_step', 'e_local_post_step', 'error_embedded_estimate', 'work_newton']
+    end_types = ['u', 'k', 'work_rhs', 'e_global_post_step', 'e_local_post_step', 'error_embedded_estimate', 'work_newton', 'error_extrapolation_estimate']
     for typ in start_types + end_types:
         recs = filter_stats(st, type=typ, recomputed=False)
         times = sorted(round(float(k.time), 9) for k in recs)
